@@ -264,7 +264,7 @@ class AEval(dtable.Eval):
                 out.append(d + self.quote(t["c"], env) + {"(": ")", "{": "}", "[": "]", "": ""}[d])
             elif k == "rep":
                 names = [x["v"] for x in _tok_iter(t["c"]) if x["t"] == "interp"]
-                lists = {n: env[n] for n in names if n in env and env[n][0] == "list"}
+                lists = {n: (env[n] if env[n][0] == "list" else L()) for n in names if n in env and (env[n][0] == "list" or env[n] == DEFAULT)}
                 if not lists:
                     raise Unknown("repetition without a list")
                 n = min(len(v[1]) for v in lists.values())
@@ -516,7 +516,9 @@ class AEval(dtable.Eval):
                 sn = src
                 while is_node(sn) and sn["k"] == "Paren":
                     sn = sn["expr"]
-                if is_node(sn) and sn["k"] == "MethodCall" and sn["method"] in ("iter_mut", "values_mut") and not sn["args"]:
+                if is_node(sn) and sn["k"] == "Path" and getattr(self, "_mutparams_stack", None) and sn["path"] in self._mutparams_stack[-1] and sn["path"] in env and env[sn["path"]][0] == "list":
+                    store = (sn, "elems")          # `for x in slice` where `slice: &mut [T]` walks it by mutable reference
+                elif is_node(sn) and sn["k"] == "MethodCall" and sn["method"] in ("iter_mut", "values_mut") and not sn["args"]:
                     pl = self._mut_place(sn["receiver"], env)
                     if pl is not None:
                         store = (pl, "values" if sn["method"] == "values_mut" else "elems")
@@ -605,6 +607,29 @@ class AEval(dtable.Eval):
                 if list(news) != list(cur[1]):
                     self._place_store(pl, L(*news), env)
                 return L(*outs) if e["method"] == "map" else UNIT
+        if k == "MethodCall" and e["method"] == "map" and len(e["args"]) == 1 and "map" not in self.builtins and is_node(e["receiver"]) and e["receiver"]["k"] == "MethodCall" \
+                and e["receiver"]["method"] in ("as_mut", "as_deref_mut") and not e["receiver"]["args"] and e["receiver"]["method"] not in self.builtins:
+            # `opt.as_deref_mut().map(f)`: what f does to the value behind the reference lands in `opt`
+            pl = self._mut_place(e["receiver"]["receiver"], env)
+            cur = self.ex(pl, env) if pl is not None else None
+            if cur is not None and cur[0] == "ctor" and cur[1] in ("Some", "None"):
+                if cur[1] == "None":
+                    return cur
+                f = self.ex(e["args"][0], env)
+                self._applied_env = None
+                self._callee_env = None
+                res = self.apply(f, [cur[2][0]])
+                newx = None
+                if f[0] == "closure" and self._applied_env is not None and len(f[1]["inputs"]) == 1 and f[1]["inputs"][0].get("k") == "PIdent":
+                    newx = self._applied_env.get(f[1]["inputs"][0]["name"])
+                elif f[0] in ("localfn", "fnref") and getattr(self, "_callee_env", None):
+                    cfn, cenv = self._callee_env
+                    p0 = cfn.node["sig"]["inputs"][0]["pat"] if cfn.node["sig"]["inputs"] else None
+                    if is_node(p0) and p0.get("k") == "PIdent":
+                        newx = cenv.get(p0["name"])
+                if newx is not None and newx != cur[2][0]:
+                    self._place_store(pl, C("Some", newx), env)
+                return C("Some", res)
         if k == "MethodCall" and e["method"] in ("find", "find_map", "position", "any", "all", "nth", "skip_while_next") and e["method"] not in self.builtins \
                 and is_node(e["receiver"]):
             # a short-circuiting adaptor on `it.by_ref()` / `(&mut it)`: the iterator variable loses what was looked at
@@ -825,6 +850,10 @@ class AEval(dtable.Eval):
         if not hasattr(self, "_assigned_stack"):
             self._assigned_stack = []
         self._assigned_stack.append(None)
+        if not hasattr(self, "_mutparams_stack"):
+            self._mutparams_stack = []
+        self._mutparams_stack.append({p_["pat"]["name"] for p_ in params if is_node(p_.get("pat")) and p_["pat"].get("k") == "PIdent"
+                                      and re.match(r"^&\s*(?:'\w+\s*)?mut\b", str(p_.get("ty", "")).strip())})
         try:
             try:
                 return self._coerce_ret(fn, self.ex(fn.body, env))
@@ -835,6 +864,7 @@ class AEval(dtable.Eval):
             self._impl_stack.pop()
             self._file_stack.pop()
             self._assigned_stack.pop()
+            self._mutparams_stack.pop()
             self._callee_env = (fn, env)
 
     def _write_back(self, arg_nodes, env):
@@ -2379,6 +2409,10 @@ class AEval(dtable.Eval):
                 raise Unknown("parameter pattern")
             env.update(b)
         self.last_env = env       # what the function did to its `&mut` parameters can be read here afterwards
+        if not hasattr(self, "_mutparams_stack"):
+            self._mutparams_stack = []
+        self._mutparams_stack.append({p_["pat"]["name"] for p_ in params if is_node(p_.get("pat")) and p_["pat"].get("k") == "PIdent"
+                                      and re.match(r"^&\s*(?:'\w+\s*)?mut\b", str(p_.get("ty", "")).strip())})
         if not hasattr(self, "_impl_stack"):
             self._impl_stack = []
         self._impl_stack.append((fn.impl_self or "").split("<")[0].split("::")[-1])
@@ -2396,6 +2430,7 @@ class AEval(dtable.Eval):
             self._impl_stack.pop()
             self._file_stack.pop()
             self._assigned_stack.pop()
+            self._mutparams_stack.pop()
 
 
 def _tok_iter(tokens):
